@@ -465,9 +465,20 @@ func (x *c03Ctx) tamperMutants(s *chain.Sim, p chain.BlockPlan) []mutant {
 			add("v2-revision-new-keys", func(mb *types.Block) bool {
 				// rotate the renter key and sign with the NEW keys instead of the current ones
 				rev := &txn(mb).FileContractRevisions[k].Revision
+				// the contract as it currently stands: the pre-block element unless an earlier revision in this block replaced it
 				cur := r.Parent.V2FileContract
+				for ti, et := range b.V2Transactions() {
+					if ti > i {
+						break
+					}
+					for rk, er := range et.FileContractRevisions {
+						if er.Parent.ID == r.Parent.ID && (ti < i || rk < k) {
+							cur = er.Revision
+						}
+					}
+				}
 				nk := s.W.Keys[rng.Intn(len(s.W.Keys))].PublicKey()
-				if nk == cur.RenterPublicKey {
+				if nk == cur.RenterPublicKey || rev.HostPublicKey != cur.HostPublicKey {
 					return false
 				}
 				rev.RenterPublicKey = nk
